@@ -46,18 +46,19 @@ void harness_init() { quiet_gsl(); { SU_vector a(3), b(3); a[4] = 0.1; SU_vector
 
 struct World {
   int d, d2, tk; bool primed;
-  double* ext = nullptr;
+  double* ext = nullptr; double* ext2 = nullptr;
   std::unique_ptr<SU_vector> T, A, B, X, R;
   std::vector<double> a, b, x, told;
   squids::Const pv, pw;
-  ~World() { T.reset(); A.reset(); B.reset(); X.reset(); R.reset(); free(ext); }
+  ~World() { T.reset(); A.reset(); B.reset(); X.reset(); R.reset(); free(ext); free(ext2); }
 };
-static const int NOPS = 44;
+static const int NOPS = 47;
 static const char* OPN[NOPS] = {"SU_vector(d)", "SU_vector(list)", "SU_vector(matrix)", "make_aligned", "Projector", "Identity", "PosProjector", "NegProjector", "Generator", "copy-construct",
   "construct(A+B)", "construct(iCommutator)", "construct(move(copy)+B)", "T=A", "T=move(copy of A)", "T=A+B", "T=A-B", "T=-A", "T=A*s", "T=iCommutator(A,B)", "T=ACommutator(A,B)", "T=iCommutator(T,B) alias",
   "T+=ACommutator(T,B) alias", "T=A.Evolve(H,t)", "T=move(copy)+B steal", "T=ElementwiseProduct(A,move(copy))", "static_cast<SU_vector>(A+B)", "(A+B)-(A*2)", "(A+B)*(A-B) scalar", "(A+B).Evolve(H,t)",
   "A.Real()", "A.Imag()", "A.Rotate(i,j)", "A.Rotate(matrix)", "T.RotateToB0", "T.RotateToB1", "A.UTransform(matrix)", "A.UDaggerTransform(matrix)", "A.UTransform(V,scale)", "T.WeightedRotation(Const)",
-  "T.WeightedRotation(matrix)", "A.GetComponents()", "-(A+B)", "T-=B*2 proxy"};
+  "T.WeightedRotation(matrix)", "A.GetComponents()", "-(A+B)", "T-=B*2 proxy",
+  "T=move(external view)*s", "T=move(external view)+B", "construct(move(external view)-B)"};
 
 static void build(World& w, ByteSource vals) {
   SU_vector::clear_mem_cache();
@@ -71,6 +72,7 @@ static void build(World& w, ByteSource vals) {
     case 2: w.T.reset(new SU_vector(w.d2)); break;
     default: free(w.ext); w.ext = (double*)malloc(sizeof(double) * d * d); w.T.reset(new SU_vector(d, w.ext)); break;
   }
+  free(w.ext2); w.ext2 = (double*)malloc(sizeof(double) * 36); for (int k = 0; k < 36; k++) w.ext2[k] = 0.25 + 0.0625 * k;
   for (unsigned k = 0; k < w.T->Size(); k++) (*w.T)[k] = 0.5 + 0.125 * k;
   w.told = comps(*w.T);
   w.pv.SetMixingAngle(0, 1, 0.3); w.pw.SetMixingAngle(0, 1, -0.2); w.pv.SetPhase(0, 1, 0.1);
@@ -126,7 +128,11 @@ static void run_op(World& w, int op) {
     case 40: { auto V = w.pv.GetTransformationMatrix(d), W = w.pw.GetTransformationMatrix(d); T.WeightedRotation(V.get(), B, W.get()); break; }
     case 41: { std::vector<double> c = A.GetComponents(); (void)c; break; }
     case 42: { SU_vector r = -(A + B); (void)r; break; }
-    default: T -= B * 2.0; break;
+    case 43: T -= B * 2.0; break;
+    // rvalue operands that do not own their storage (a view on a user buffer which outlives every vector of the case)
+    case 44: { SU_vector v(d, w.ext2); T = std::move(v) * 2.0; break; }
+    case 45: { SU_vector v(d, w.ext2); T = std::move(v) + B; break; }
+    default: { SU_vector v(d, w.ext2); w.R.reset(new SU_vector(std::move(v) - B)); break; }
   }
 }
 // operations that use the target as a d-dimensional operand need a target of dimension d
